@@ -42,9 +42,16 @@ func runBlocked(in input) lib.Case {
 	if len(e.conns) >= 1 {
 		pe = e.conns[0].pe
 	}
+	// Whether and when a Send blocks depends on the kernel's socket buffers and on scheduling, so
+	// the schedule the model is run on is DERIVED FROM WHAT IS OBSERVED:
+	//   - a Send is in progress when Stop is called and fails: "blocked" (blocked_schedule);
+	//   - every Send had completed, or the one in progress completed before Stop closed the
+	//     connection: "unblocked" (unblocked_schedule: all sends Ok, then Stop) - class +unblocked.
+	// No time threshold decides anything: the sending goes on (bounded by the total number of
+	// bytes, far beyond what the kernel can buffer) until a Send is really parked.
 	nok := 1
 	blockedSeen := false
-	var blockedRes *opResult
+	var inFlight *opResult
 	if pe == nil || e.sends[0].err != nil {
 		// the set-up send did not give a connection: evaluated as it is (the model expects Ok)
 		class += "+cut"
@@ -53,8 +60,9 @@ func runBlocked(in input) lib.Case {
 		// the peer stops reading (it still takes the message its Receive may be in the middle of)
 		atomic.StoreInt32(&pe.stall, 1)
 		data := make([]byte, b.Size*1024)
+		const totalLimit = 192 << 20
 	sending:
-		for i := 0; i < 200; i++ {
+		for total := 0; total < totalLimit; total += len(data) {
 			res := &opResult{done: make(chan struct{})}
 			e.sends = append(e.sends, res)
 			go func() {
@@ -70,9 +78,9 @@ func runBlocked(in input) lib.Case {
 				_, res.err = e.r.Send(e.peers[0].si, &Blob{Data: data})
 			}()
 			// Blocked = the peer is parked (reads nothing more) and the sending goroutine sits in the
-			// socket write waiting for buffer space. No time threshold decides it: a slow but
-			// progressing Send is never taken for a blocked one.
-			deadline := time.Now().Add(20 * time.Second)
+			// socket write waiting for buffer space, twice in a row with the socket's queues unchanged.
+			// A slow but progressing Send is never taken for a blocked one.
+			deadline := time.Now().Add(opDeadline)
 			for {
 				select {
 				case <-res.done:
@@ -84,10 +92,10 @@ func runBlocked(in input) lib.Case {
 					}
 					nok++
 					continue sending
-				case <-time.After(5 * time.Millisecond):
+				case <-time.After(2 * time.Millisecond):
 				}
 				if atomic.LoadInt32(&pe.parked) == 1 && countStack("network.(*TCPConn).sendRaw", "waitWrite") > 0 {
-					// confirm: still there a moment later, and not finished meanwhile
+					// confirm: the same write is still waiting a moment later
 					time.Sleep(20 * time.Millisecond)
 					select {
 					case <-res.done:
@@ -96,21 +104,19 @@ func runBlocked(in input) lib.Case {
 					}
 					if countStack("network.(*TCPConn).sendRaw", "waitWrite") > 0 {
 						blockedSeen = true
-						blockedRes = res
+						inFlight = res
 						break sending
 					}
 				}
 				if time.Now().After(deadline) {
-					// neither returned nor recognisably blocked in the write
+					// neither returned nor recognisably blocked in the write: Stop is called with
+					// this Send in flight, whatever it is doing
+					noteMiss("send neither returned nor blocked")
 					class += "+cut"
-					blockedRes = res
+					inFlight = res
 					break sending
 				}
 			}
-		}
-		if blockedRes == nil && !strings.HasSuffix(class, "+cut") {
-			// 200 messages went out without any Send blocking although the peer reads nothing
-			class += "+cut"
 		}
 	}
 	// Stop while the Send is blocked in the write; a Stop that does not come back is an observation
@@ -119,9 +125,28 @@ func runBlocked(in input) lib.Case {
 			break
 		}
 	}
-	if blockedRes != nil {
-		waitCh(blockedRes.done, opDeadline)
+	if inFlight != nil {
+		waitCh(inFlight.done, opDeadline)
 	}
+	// what actually happened to the Send that was in flight when Stop was called
+	blockedSched := false
+	if inFlight != nil {
+		select {
+		case <-inFlight.done:
+			if inFlight.err == nil {
+				// it completed before Stop closed the connection: all sends Ok, then Stop
+				nok++
+			} else {
+				blockedSched = true
+			}
+		default:
+			blockedSched = true // still pending: compared with the model's blocked schedule (Err)
+		}
+	}
+	if !blockedSched && !strings.Contains(class, "+cut") {
+		class += "+unblocked"
+	}
+	_ = blockedSeen
 	// connections the retried Send opened
 	for {
 		select {
@@ -144,7 +169,7 @@ func runBlocked(in input) lib.Case {
 		}
 		o.Stops = []bool{all}
 	}
-	coq := fmt.Sprintf("BlockedSend %d %s %s", nok, lib.Bool(blockedSeen), coqRobs(o))
+	coq := fmt.Sprintf("BlockedSend %d %s %s", nok, lib.Bool(blockedSched), coqRobs(o))
 	return lib.Case{Coq: coq, Class: class, Obs: o, Nontrivial: true,
 		Key: fmt.Sprint(b.Size, b.Stops, nok)}
 }
